@@ -922,7 +922,7 @@ def c07_check(case):
 
 def c08_gen(rng):
     n = rng.randint(0, 14)
-    alpha = gen.ALPHABET_FULL + ['~e.1', '~1,2', '"a\\"b"', ':r', '# x']
+    alpha = gen.ALPHABET_FULL + ['~e.1', '~1,2', '"a\\"b"', ':r', '# x', '"', '"', '\\', '\\"', '\\\\', '"x\\']
     return {'line': ''.join(rng.choice(alpha) for _ in range(n)), 'mode': rng.choice(['penman', 'triples'])}
 
 
@@ -1334,6 +1334,11 @@ def model_wf(m):
     return True
 
 
+def defined_by_spec(m, r):
+    """does the role table define r? (independent of Model._has_role)"""
+    return any(re.fullmatch(p, r) for p in list(m.roles) + [re.escape(m.top_role), re.escape(m.concept_role)])
+
+
 def c13_check(case):
     m = py_model(case['model'])
     if not model_wf(m):
@@ -1341,6 +1346,13 @@ def c13_check(case):
     r = case['role']
     if '\n' in r:
         return None
+    d = defined_by_spec(m, r)
+    if d and m.is_role_inverted(r):
+        return f'role {r!r} is defined by the model but considered inverted'
+    if m.has_role(r) != (d or (r.endswith('-of') and defined_by_spec(m, r[:-3]))):
+        return f'has_role({r!r}) = {m.has_role(r)} but the table says otherwise'
+    if not d and r.endswith('-of') and not m.is_role_inverted(r):
+        return f'undefined role {r!r} ending in -of is not considered inverted'
     c = m.canonicalize_role(r)
     if m.canonicalize_role(c) != c:
         return f'canonicalize_role not idempotent on {r!r}: {c!r} -> {m.canonicalize_role(c)!r}'
